@@ -44,7 +44,8 @@ def FLOORS(tier):
     q = tier == "quick"
     f = {"kernel-calls:c_anneal_quso": 120 if q else 20000, "kernel-calls:c_anneal_puso": 120 if q else 20000,
          "boundary-contract-checks": 250 if q else 40000, "hook-index-checks": 10 ** 5, "reference-call-repeats": 8, "leak-probe-calls": 800,
-         "sanitizer-log-polls": 300, "refcount-objects-checked": 5000}
+         "sanitizer-log-polls": 300, "refcount-objects-checked": 5000,
+         "signal-during-call:interrupted": 3}
     for c in CLASSES:
         f["class:" + c] = (8 if c in ("chain-2000", "dense-40") else 25) if q else 1500
     for s in SCHED:
@@ -179,6 +180,10 @@ def poll_sanitizer_logs(ctx, w):
                               "%s report: %s at %s" % (rep["tool"], rep["kind"], rep["where"]),
                               {"call": w, "report_excerpt": txt[:1800]})
     return n
+
+
+class _Interrupt(Exception):
+    pass
 
 
 def hostile_config(rng):
@@ -356,11 +361,41 @@ def case(ctx, rng, idx):
     w["class"] = cfg["class"]
     _state["pending"] = []
     _state.pop("last_kernel_args", None)
-    try:
-        res = getattr(L.sim, cfg["fn"])(cfg["model"], **cfg["kw"])
-        exc = None
-    except Exception as e:   # noqa
-        res, exc = None, e
+    interrupted = False
+    if rng.random() < 0.06 and not os.environ.get("QV_C17_VALGRIND") and cfg["class"] not in ("chain-2000", "dense-40"):
+        # a signal whose Python handler raises arrives while the kernel runs (Ctrl-C, an alarm): the call may end with that
+        # exception or finish first -- either way the heap stays sound and later calls work
+        import signal
+        cfg["kw"] = dict(cfg["kw"], num_anneals=rng.choice([40, 150]), schedule="linear", anneal_duration=rng.choice([50, 200]))
+        cfg["kw"].pop("temperature_range", None)
+        w = A.describe(cfg)
+        w["class"] = cfg["class"]
+        w["signal"] = "ITIMER_REAL with a raising handler"
+
+        def _raise(signum, frame):
+            raise _Interrupt()
+        old_h = signal.signal(signal.SIGALRM, _raise)
+        signal.setitimer(signal.ITIMER_REAL, rng.choice([0.0005, 0.002, 0.006]))
+        try:
+            try:
+                res = getattr(L.sim, cfg["fn"])(cfg["model"], **cfg["kw"])
+                exc = None
+            finally:
+                signal.setitimer(signal.ITIMER_REAL, 0)
+        except _Interrupt:
+            res, exc, interrupted = None, None, True
+        except Exception as e:   # noqa
+            res, exc = None, e
+        finally:
+            signal.setitimer(signal.ITIMER_REAL, 0)
+            signal.signal(signal.SIGALRM, old_h)
+        ctx.cat("signal-during-call:" + ("interrupted" if interrupted else "finished-first"))
+    else:
+        try:
+            res = getattr(L.sim, cfg["fn"])(cfg["model"], **cfg["kw"])
+            exc = None
+        except Exception as e:   # noqa
+            res, exc = None, e
     for name, errs in _state["pending"]:
         if errs[0].startswith("reference count"):
             ctx.violation("refcount:%s:caller-owned-object-changed" % name, "%s: %s" % (name, errs[0]), w)
@@ -375,7 +410,7 @@ def case(ctx, rng, idx):
             ctx.violation("kernel-hook:index-out-of-bounds", "H2 hook counted %d out-of-range indices" % c[2], w)
         if c[1]:
             ctx.violation("kernel-hook:dE-mismatch", "H2 hook counted %d dE mismatches" % c[1], w)
-    if _state["pending"] or polled:
+    if _state["pending"] or polled or interrupted:
         return
     if exc is not None:
         # an ordinary Python exception is not a memory-safety event (whether the call should have been accepted is C11's
